@@ -13,7 +13,7 @@
 From Coq Require Import List ZArith NArith Bool Reals Lra.
 From T4V Require Import Base.Scalar C03.Vec C03.Model C03.Convert C03.Spec C03.SpecT4
   C03.ProofsPlanes C03.ProofsQuad C03.ProofsArb C03.ProofsExpand C03.ProofsFacet
-  C03.ProofsConvert C03.ProofsWritten C03.Proofs C03.ProofsExpandT4 C03.LinkC04 C03.LinkedWritten.
+  C03.ProofsConvert C03.ProofsWritten C03.Proofs C03.ProofsExpandT4 C03.ProofsHull C03.LinkC04 C03.LinkedWritten C03.LinkC13.
 Import ListNotations.
 Open Scope R_scope.
 
@@ -622,6 +622,110 @@ Theorem C03_expand_macro_den_written_linked : forall (l : list R) (o : S4.R3) (b
      expand new_key n (Some k) (ids_of_t4 ts ns) = Err ECellConv).
 Proof. exact reference_written_linked. Qed.
 
+(* ---------------- ARB tetrahedron: half-spaces = convex hull ---------------- *)
+(* the Spec of ARB speaks of facet half-spaces; for the tetrahedron (descriptors
+   123 124 134 234) their intersection is the open convex hull of the vertices *)
+Theorem C03_arb_tetra_hull : forall p1 p2 p3 p4 p : pt,
+  det (vsub p2 p1) (vsub p3 p1) (vsub p4 p1) <> 0 ->
+  (inside_of (arb_facets [p1; p2; p3; p4] tetra_facets) p <-> hull4 p1 p2 p3 p4 p).
+Proof. exact tetra_hull. Qed.
+
+Theorem C03_arb_tetra_solid : forall p1 p2 p3 p4 q5 q6 q7 q8 : pt,
+  let V := [p1; p2; p3; p4; q5; q6; q7; q8] in
+  let descr := [123; 124; 134; 234; 0; 0]%N in
+  det (vsub p2 p1) (vsub p3 p1) (vsub p4 p1) <> 0 ->
+  Forall (facet_admissible [p1; p2; p3; p4] (centroid_of [p1; p2; p3; p4])) tetra_facets ->
+  forall es, arb RS (flat V) descr = Ok es ->
+  forall p, all_negative es p <-> hull4 p1 p2 p3 p4 p.
+Proof. exact arb_tetra_solid. Qed.
+
+(* ---------------- linked to C04, round 3: the remaining sources -------------- *)
+Theorem C03_card_gives_canonical_linked : forall (o : S4.R3) (b : V4.M3 R),
+  S4.rows_orthonormal b -> T4V.C04.ProofsMatrix.clip_ok_m b ->
+  card_gives (V4.vlist o ++ V4.mlist b) o b.
+Proof. exact card_gives_canonical. Qed.
+
+(* two columns (six entries), one row / one column (three entries), one row and
+   one column (five entries, Eulerian completion): the completed matrix b is a
+   proper rotation keeping every supplied entry, and -- when no entry of b lies
+   in (0, 1e-10) -- the card yields o ++ b, a well-formed transformation *)
+Theorem C03_six_entry_cols_card_linked : forall (i : nat) (o c0 c1 : S4.R3),
+  (i < 3)%nat -> S4.norm2 c0 = 1 -> S4.norm2 c1 = 1 -> S4.dot c0 c1 = 0 ->
+  let pat := V4.transpose (M4.place3 i T4V.C04.ProofsMatrix.none3 (T4V.C04.ProofsMatrix.somev c0)
+                                     (T4V.C04.ProofsMatrix.somev c1)) in
+  exists b, S4.rotation b /\ S4.agrees pat b /\
+    (T4V.C04.ProofsMatrix.clip_ok_m b ->
+     M4.tr_card RS false (map Some (V4.vlist o) ++ V4.mlist pat) = M4.Ok (V4.vlist o ++ V4.mlist b) /\
+     card_gives (V4.vlist o ++ V4.mlist b) o b).
+Proof. exact six_entry_cols_card. Qed.
+
+Theorem C03_three_entry_row_card_linked : forall (i : nat) (o r : S4.R3),
+  (i < 3)%nat -> S4.norm2 r = 1 ->
+  let pat := M4.place3 i (T4V.C04.ProofsMatrix.somev r) T4V.C04.ProofsMatrix.none3
+                       T4V.C04.ProofsMatrix.none3 in
+  exists b, S4.rotation b /\ S4.agrees pat b /\
+    (T4V.C04.ProofsMatrix.clip_ok_m b ->
+     M4.tr_card RS false (map Some (V4.vlist o) ++ V4.mlist pat) = M4.Ok (V4.vlist o ++ V4.mlist b) /\
+     card_gives (V4.vlist o ++ V4.mlist b) o b).
+Proof. exact three_entry_row_card. Qed.
+
+Theorem C03_three_entry_col_card_linked : forall (i : nat) (o c : S4.R3),
+  (i < 3)%nat -> S4.norm2 c = 1 ->
+  let pat := V4.transpose (M4.place3 i (T4V.C04.ProofsMatrix.somev c) T4V.C04.ProofsMatrix.none3
+                                     T4V.C04.ProofsMatrix.none3) in
+  exists b, S4.rotation b /\ S4.agrees pat b /\
+    (T4V.C04.ProofsMatrix.clip_ok_m b ->
+     M4.tr_card RS false (map Some (V4.vlist o) ++ V4.mlist pat) = M4.Ok (V4.vlist o ++ V4.mlist b) /\
+     card_gives (V4.vlist o ++ V4.mlist b) o b).
+Proof. exact three_entry_col_card. Qed.
+
+Theorem C03_five_entry_card_linked : forall (ir ic : nat) (o row col : S4.R3),
+  (ir < 3)%nat -> (ic < 3)%nat -> S4.norm2 row = 1 -> S4.norm2 col = 1 ->
+  V4.vget ic row = V4.vget ir col ->
+  let pat := T4V.C04.ProofsMatrix5.pat5 ir ic row col in
+  exists b, S4.rotation b /\ S4.agrees pat b /\
+    (T4V.C04.ProofsMatrix.clip_ok_m b ->
+     M4.tr_card RS false (map Some (V4.vlist o) ++ V4.mlist pat) = M4.Ok (V4.vlist o ++ V4.mlist b) /\
+     card_gives (V4.vlist o ++ V4.mlist b) o b).
+Proof. exact five_entry_card. Qed.
+
+(* FILL=u (n) by number; *TRCL=(o angles) and *FILL=u (o angles) *)
+Theorem C03_fill_by_number_linked : forall (l : list R) (o : S4.R3) (b : V4.M3 R) star (n : R)
+    trs trid,
+  card_gives l o b -> M4.lookup trid trs = M4.Ok l ->
+  M4.parse_fill_tr RS star [n] trs trid = M4.Ok l.
+Proof. exact fill_by_number. Qed.
+
+Theorem C03_starred_inline_linked : forall (o : S4.R3) (ang : V4.M3 R) trs trid,
+  let b := V4.vmap (V4.vmap (fun a => cos (a * PI / 180))) ang in
+  S4.rows_orthonormal b -> T4V.C04.ProofsMatrix.clip_ok_m b ->
+  M4.parse_trcl RS true (V4.vlist o ++ V4.mlist ang) trs trid = M4.Ok (V4.vlist o ++ V4.mlist b) /\
+  M4.parse_fill_tr RS true (V4.vlist o ++ V4.mlist ang) trs trid = M4.Ok (V4.vlist o ++ V4.mlist b) /\
+  card_gives (V4.vlist o ++ V4.mlist b) o b.
+Proof. exact starred_inline. Qed.
+
+(* ---------------- linked to C13: de-duplication of surfaces ----------------- *)
+(* a written facet (surface k, type t, parameters prm, no TRANSFORM) that
+   remove_duplicate_surfaces renumbers to k' is kept as surface k' with the same
+   type and parameters, hence it is still the facet, with the same side *)
+Theorem C03_facet_survives_dedup_linked : forall (surfs : list (Z * M13.desc R)) (k k' : Z)
+    (t : t4type) (prm : list R),
+  NoDup (map fst surfs) ->
+  In (k, desc_of t prm) surfs ->
+  In (k, k') (snd (M13.remove_duplicate_surfaces RS surfs)) ->
+  In (k', desc_of t prm) (fst (M13.remove_duplicate_surfaces RS surfs)).
+Proof. exact facet_survives_dedup. Qed.
+
+Theorem C03_facet_locus_survives_dedup_linked : forall (surfs : list (Z * M13.desc R)) (k k' : Z)
+    (t : t4type) (prm : list R) (side : Z) (g : pt -> pt) (f : pt -> R),
+  NoDup (map fst surfs) ->
+  In (k, desc_of t prm) surfs ->
+  In (k, k') (snd (M13.remove_duplicate_surfaces RS surfs)) ->
+  same_t4_facet g (t, prm, side) f ->
+  exists t' prm', In (k', desc_of t' prm') (fst (M13.remove_duplicate_surfaces RS surfs)) /\
+                  same_t4_facet g (t', prm', side) f.
+Proof. exact facet_locus_survives_dedup. Qed.
+
 (* ---------------- non-vacuity ---------------- *)
 (* the left-handed wedge of DESIGN 8 #20 (a, b swapped) and a left-handed box
    satisfy the hypotheses; so do right-handed ones *)
@@ -670,8 +774,8 @@ Print Assumptions C03_family_facets.
 
 (* every body: -b is the solid, +b its complement *)
 Theorem C03_family_inside :
-  ltac:(let t := type of (conj C03_box_inside (conj C03_box_general_inside (conj C03_rpp_inside (conj C03_sph_inside (conj C03_rcc_inside (conj C03_rhp15_inside (conj C03_rhp9_inside (conj C03_rec12_inside (conj C03_rec10_inside (conj C03_rec12_solid (conj C03_rec10_solid (conj C03_trc_inside (conj C03_trc_solid (conj C03_ell_axis_inside (conj C03_ell_foci_inside (conj C03_wed_inside C03_arb_inside)))))))))))))))) in exact t).
-Proof. exact (conj C03_box_inside (conj C03_box_general_inside (conj C03_rpp_inside (conj C03_sph_inside (conj C03_rcc_inside (conj C03_rhp15_inside (conj C03_rhp9_inside (conj C03_rec12_inside (conj C03_rec10_inside (conj C03_rec12_solid (conj C03_rec10_solid (conj C03_trc_inside (conj C03_trc_solid (conj C03_ell_axis_inside (conj C03_ell_foci_inside (conj C03_wed_inside C03_arb_inside)))))))))))))))). Qed.
+  ltac:(let t := type of (conj C03_box_inside (conj C03_box_general_inside (conj C03_rpp_inside (conj C03_sph_inside (conj C03_rcc_inside (conj C03_rhp15_inside (conj C03_rhp9_inside (conj C03_rec12_inside (conj C03_rec10_inside (conj C03_rec12_solid (conj C03_rec10_solid (conj C03_trc_inside (conj C03_trc_solid (conj C03_ell_axis_inside (conj C03_ell_foci_inside (conj C03_wed_inside (conj C03_arb_inside (conj C03_arb_tetra_hull C03_arb_tetra_solid)))))))))))))))))) in exact t).
+Proof. exact (conj C03_box_inside (conj C03_box_general_inside (conj C03_rpp_inside (conj C03_sph_inside (conj C03_rcc_inside (conj C03_rhp15_inside (conj C03_rhp9_inside (conj C03_rec12_inside (conj C03_rec10_inside (conj C03_rec12_solid (conj C03_rec10_solid (conj C03_trc_inside (conj C03_trc_solid (conj C03_ell_axis_inside (conj C03_ell_foci_inside (conj C03_wed_inside (conj C03_arb_inside (conj C03_arb_tetra_hull C03_arb_tetra_solid)))))))))))))))))). Qed.
 Print Assumptions C03_family_inside.
 
 (* every body: the written TRIPOLI-4 surfaces, also under a transformation; references over them *)
@@ -688,8 +792,8 @@ Print Assumptions C03_family_references.
 
 (* transformation taken from a well-formed TR card / inline transformation (C04) *)
 Theorem C03_family_linked :
-  ltac:(let t := type of (conj C03_card_transformation_linked (conj C03_written_linked (conj C03_bodies_written_linked (conj C03_abbreviated_card_linked (conj C03_six_entry_card_linked (conj C03_trcl_by_number_linked C03_expand_macro_den_written_linked)))))) in exact t).
-Proof. exact (conj C03_card_transformation_linked (conj C03_written_linked (conj C03_bodies_written_linked (conj C03_abbreviated_card_linked (conj C03_six_entry_card_linked (conj C03_trcl_by_number_linked C03_expand_macro_den_written_linked)))))). Qed.
+  ltac:(let t := type of (conj C03_card_transformation_linked (conj C03_written_linked (conj C03_bodies_written_linked (conj C03_abbreviated_card_linked (conj C03_six_entry_card_linked (conj C03_trcl_by_number_linked (conj C03_expand_macro_den_written_linked (conj C03_card_gives_canonical_linked (conj C03_six_entry_cols_card_linked (conj C03_three_entry_row_card_linked (conj C03_three_entry_col_card_linked (conj C03_five_entry_card_linked (conj C03_fill_by_number_linked (conj C03_starred_inline_linked (conj C03_facet_survives_dedup_linked C03_facet_locus_survives_dedup_linked))))))))))))))) in exact t).
+Proof. exact (conj C03_card_transformation_linked (conj C03_written_linked (conj C03_bodies_written_linked (conj C03_abbreviated_card_linked (conj C03_six_entry_card_linked (conj C03_trcl_by_number_linked (conj C03_expand_macro_den_written_linked (conj C03_card_gives_canonical_linked (conj C03_six_entry_cols_card_linked (conj C03_three_entry_row_card_linked (conj C03_three_entry_col_card_linked (conj C03_five_entry_card_linked (conj C03_fill_by_number_linked (conj C03_starred_inline_linked (conj C03_facet_survives_dedup_linked C03_facet_locus_survives_dedup_linked))))))))))))))). Qed.
 Print Assumptions C03_family_linked.
 
 
